@@ -80,7 +80,7 @@ pub fn oracles_for(prop: &str, c: &Case, impl_result: &str) -> Vec<Verdict> {
         ("C04", Case::Write { ctors, .. }) => v.push(oracle_c04(ctors)),
         ("C05", Case::Write { ctors, .. }) => v.push(oracle_c05(ctors)),
         ("C05", Case::Construct(c)) => v.push(oracle_c05(std::slice::from_ref(c))),
-        ("C06", Case::Read { target, shp, .. }) => v.push(oracle_c06(target, shp)),
+        ("C06", Case::Read { target, shp, .. }) if target != "generic" => v.push(oracle_c06(target, shp)),
         ("C06", Case::Construct(c)) => v.push(oracle_c06_value(c)),
         ("C07", _) | ("C17", Case::Read { .. }) | ("C17", Case::Rhist { .. }) => {
             v.push(oracle_c07(impl_result));
